@@ -17,7 +17,7 @@ import (
 	"github.com/formancehq/ledger/verifharness/stats"
 )
 
-const ruleC07F = "fault enumeration: for every generated write (create by postings, revert, 4 metadata operations, insert schema; as a single request or as an atomic bulk of 1-3 elements; on an 'initializing' or an in-use ledger, fresh or re-used controller chain) the operation is first attempted with a database failure injected at SQL statement k = 1, 2, 3, ... (once before the statement runs, once after its effect has been applied inside the transaction) and then at COMMIT j = 1, 2, ..., until a position past the end lets it complete; a third dimension injects a deadlock error (retryable) at statement k of writes and dry runs, so that the retry path replays them; after every attempt that reports an error all tables (bucket and _system, committed rows) must be identical to the snapshot taken before it and the Listener must have received nothing; non-trivial = operation with >= 4 enumerated positions of which >= 1 after an effect, that finally commits; distinct = by operation + pre-state history"
+const ruleC07F = "fault enumeration: for every generated write (create by postings, revert, 4 metadata operations, insert schema; as a single request or as an atomic bulk of 1-3 elements; on an 'initializing' or an in-use ledger, fresh or re-used controller chain) the operation is first attempted with a database failure injected at SQL statement k = 1, 2, 3, ... (once before the statement runs, once after its effect has been applied inside the transaction) and then at COMMIT j = 1, 2, ..., until a position past the end lets it complete; a third dimension injects a deadlock error (retryable) at statement k of writes and dry runs, so that the retry path replays them; after every attempt that reports an error all tables (bucket and _system, committed rows) must be identical to the snapshot taken before it and the Listener must have received nothing; an attempt that reports success although the fault fired must have made every write it acknowledges durable (one log each); non-trivial = operation with >= 4 enumerated positions of which >= 1 after an effect, that finally commits; distinct = by operation + pre-state history"
 
 // runOps issues the operation (single write or atomic bulk) and returns the error of every part.
 func (r *evRun) runOps(l *c31Ledger, mode string, ops []evOp) []error {
@@ -67,6 +67,7 @@ func (r *evRun) enumerate(t interface{ Fatalf(string, ...any) }, l *c31Ledger, m
 	attempt := func(plan faultPlan) (fired bool, failed bool) {
 		before := sim.Dump()
 		evBefore := len(r.lis.events)
+		logsBefore := len(r.lis.committedLogs(l.name))
 		var errs []error
 		tr := withFault(sim, plan, func() { errs = r.runOps(l, mode, ops) })
 		for _, e := range errs {
@@ -80,8 +81,22 @@ func (r *evRun) enumerate(t interface{ Fatalf(string, ...any) }, l *c31Ledger, m
 		}
 		fs.positions++
 		if err == nil {
-			// the failed statement did not make the operation fail (its error was not needed for the outcome): nothing to require
+			// the failed statement did not make the operation fail (its error was not needed for the outcome). Then the
+			// operation claims success: every write it reports must be in the journal (a COMMIT that failed must not be
+			// answered with success)
 			fs.swallowed++
+			noKey := true
+			for _, o := range ops {
+				if o.IK != "" || o.DryRun {
+					noKey = false
+				}
+			}
+			if noKey {
+				grew := len(r.lis.committedLogs(l.name)) - logsBefore
+				if grew != len(ops) {
+					t.Fatalf("VIOLATION[C07]: %s reports success for its %d write(s) under an injected database failure (%s) but the journal grew by %d log(s): an acknowledged write is not durable\nhistory:\n  %s", desc, len(ops), plan, grew, strings.Join(r.hist, "\n  "))
+				}
+			}
 			return true, false
 		}
 		after := sim.Dump()
@@ -171,12 +186,18 @@ func (r *evRun) enumerate(t interface{ Fatalf(string, ...any) }, l *c31Ledger, m
 	return fs
 }
 
-func TestC07Faults(t *testing.T) {
-	st := stats.New("C07", "fault_enumeration", ruleC07F, assumePgsim,
+func TestC07Faults(t *testing.T) { runFaultEnumeration(t, "C07", 80, 200) }
+
+// TestC08Faults: the same enumeration for C08 - a write answered with success has its log in the journal, a write
+// answered with an error has none - whatever statement or COMMIT fails on the way.
+func TestC08Faults(t *testing.T) { runFaultEnumeration(t, "C08", 40, 120) }
+
+func runFaultEnumeration(t *testing.T, id string, quick, thorough int) {
+	st := stats.New(id, "fault_enumeration", ruleC07F, assumePgsim,
 		"a database failure is an error returned by the driver for one statement (before or after its effect; the open transaction is then in the aborted state) or for a COMMIT (the transaction is rolled back); failures inside a statement's execution are not modelled")
 	defer st.Write(t)
-	n := stats.N(80, 200)
-	st.Set("requested_checks", n)
+	n := stats.N(quick, thorough)
+	st.Set("requested_checks_fault_enumeration", n)
 	stats.Check(t, n, 77, func(rt *rapid.T) {
 		fs := features.DefaultFeatures
 		if rapid.IntRange(0, 3).Draw(rt, "minimalFeatures") == 0 {
